@@ -1,8 +1,19 @@
 /* C16 harness, printer side: the real bin/rdsquashfs/src/describe.c, stdout captured into a memory stream. */
 #include "bin/rdsquashfs/src/describe.c"
 
-/* runs describe_tree(node, unpack_root) and returns everything it wrote to stdout; *rc = its return value */
-char *c16_capture_describe(const sqfs_tree_node_t *node, const char *unpack_root, size_t *len, int *rc)
+/* which diagnostic describe_tree printed (the model's DErr) */
+static const char *c16_desc_class(const char *err)
+{
+	if (strstr(err, "Encountered illegal file name")) return "insane";
+	if (strstr(err, "Recovering file path of tree node")) return "path";
+	if (strstr(err, "Error sanitizing file path")) return "canon";
+	if (strstr(err, "line feed")) return "newline";
+	return "unknown";
+}
+
+/* runs describe_tree(node, unpack_root) and returns everything it wrote to stdout; *rc = its return value,
+ * *cls = class of the diagnostic on stderr (static string) */
+char *c16_capture_describe(const sqfs_tree_node_t *node, const char *unpack_root, size_t *len, int *rc, const char **cls)
 {
 	char *buf = NULL;
 	FILE *saved = stdout, *saved_err = stderr, *mem = open_memstream(&buf, len);
@@ -15,6 +26,40 @@ char *c16_capture_describe(const sqfs_tree_node_t *node, const char *unpack_root
 	stdout = mem;
 	stderr = emem;
 	*rc = describe_tree(node, unpack_root);
+	fflush(mem);
+	stdout = saved;
+	stderr = saved_err;
+	fclose(mem);
+	fclose(emem);
+	*cls = c16_desc_class(ebuf ? ebuf : "");
+	free(ebuf);
+	return buf;
+}
+
+/*
+ * print_escaped() alone.  It returns void in /repo and int with fixes/C16-describe-newline.patch; the unselected
+ * operand of __builtin_choose_expr is not evaluated and may have either type.
+ */
+char *c16_capture_escaped(const char *str, size_t *len, int *rc)
+{
+	char *buf = NULL;
+	FILE *saved = stdout, *saved_err = stderr, *mem = open_memstream(&buf, len);
+	char *ebuf = NULL;
+	size_t elen = 0;
+	FILE *emem = open_memstream(&ebuf, &elen);
+
+	if (mem == NULL || emem == NULL)
+		abort();
+	stdout = mem;
+	stderr = emem;
+#ifdef C16_NO_PRINT_ESCAPED
+	/* describe.c has no print_escaped(const char *) any more: the check reports the lost tie and goes on */
+	(void)str;
+	*rc = -2;
+#else
+	*rc = __builtin_choose_expr(__builtin_types_compatible_p(__typeof__(print_escaped(str)), void),
+				    (print_escaped(str), 0), print_escaped(str));
+#endif
 	fflush(mem);
 	stdout = saved;
 	stderr = saved_err;
